@@ -79,6 +79,81 @@ def token_big_replay(check, pid, path, work, seed):
     return 0
 
 
+CS_FIELDS = [("kind", "Str"), ("S", "Int"), ("T", "Int"), ("L", "Int"), ("S2", "Int"), ("T2", "Int"), ("L2", "Int"),
+             ("rin", "Int"), ("rout", "Int"), ("paid", "Int"), ("recv", "Int"), ("fn", "Int"), ("fd", "Int"),
+             ("isBuy", "Bool")]
+CS_STEPOK = """  /\\ (s.kind = "share" => ShareValueW(s.S, s.T, s.L, s.S2, s.T2, s.L2))
+  /\\ (s.kind = "leg" =>
+        /\\ s.paid >= 0 /\\ s.recv >= 0 /\\ s.recv < s.rout
+        /\\ LegRuleW(s.rin, s.rout, s.paid, s.recv, s.fn, s.fd)
+        /\\ (s.isBuy => LegOutTightW(s.rin, s.rout, s.paid, s.recv, s.fn, s.fd))
+        /\\ (~s.isBuy => LegInMaxW(s.rin, s.rout, s.paid, s.recv, s.fn, s.fd)))"""
+
+
+def coinswap_big(check, pid, tier, seed, work, rows_file=None):
+    """C01: the real coinswap module driven through the ABCI path with reserves,
+    shares and trades from 1 to ~2^120; per message the pool's (S, T, L) before and
+    after, per swap the leg as seen from the pool."""
+    vlib.build_harness("coinswapbig")
+    sub = os.path.join(work, "big")
+    os.makedirs(sub, exist_ok=True)
+    vlib.copy_specs(sub)
+    n, ln = {"quick": (8, 30), "thorough": (60, 40)}[tier]
+    if rows_file is None:
+        rows_file = os.path.join(sub, "csrows.json")
+        p = subprocess.run([vlib.harness_bin("coinswapbig"), "rows", "-seed", str(seed), "-n", str(n), "-len", str(ln),
+                            "-out", rows_file], capture_output=True, text=True, timeout=1200)
+        if p.returncode != 0:
+            raise Inconclusive("harness-coinswapbig failed: " + p.stderr[-1000:])
+    rows = json.load(open(rows_file))
+    ok, failing, wall = vlib.apalache_steps(sub, "CoinswapBig", "CoinswapClauses", CS_FIELDS, rows, CS_STEPOK)
+    legs = sum(1 for r in rows if r["kind"] == "leg")
+    cov = {"big_steps": len(rows), "big_steps_ok": ok, "big_legs": legs, "big_wall_s": round(wall, 1),
+           "big_rule": "rows = successful coinswap messages executed on the real chain with reserves/shares/trades up to "
+                       "~2^120 and 18-decimal fees; share-value row per message, leg row per swap; clauses of "
+                       "CoinswapClauses.tla evaluated by Apalache 0.58 / Z3",
+           "big_samples": rows[:2]}
+    log(f"[big] {len(rows)} big-number rows ({legs} swap legs) from the real chain evaluated by Apalache: {ok} ok, "
+        f"{len(failing)} failing ({wall:.0f}s)")
+    viol = []
+    if failing:
+        os.makedirs(os.path.join(ROOT, "replays"), exist_ok=True)
+        path = os.path.join(ROOT, "replays", f"{pid}-{tier}-seed{seed}.bigrows.json")
+        json.dump({"seed": seed, "n": n, "len": ln, "failing": [rows[i] for i in failing]}, open(path, "w"), indent=1)
+        r = rows[failing[0]]
+        viol.append((path, f"big-number row violates the C01 clauses: {r['op']} ({r['kind']}) history {r['hist']} step {r['step']}: "
+                           f"S,T,L {r['S']},{r['T']},{r['L']} -> {r['S2']},{r['T2']},{r['L2']}; leg rin={r['rin']} rout={r['rout']} "
+                           f"paid={r['paid']} recv={r['recv']} fee={r['fn']}/1e18"))
+    return viol, cov
+
+
+def coinswap_big_replay(check, pid, path, work, seed):
+    """Re-run the recorded driver run (same seed and sizes) on the real chain and evaluate again."""
+    meta = json.load(open(path))
+    vlib.build_harness("coinswapbig")
+    sub = os.path.join(work, "bigreplay")
+    os.makedirs(sub, exist_ok=True)
+    vlib.copy_specs(sub)
+    rows_file = os.path.join(sub, "csrows.json")
+    p = subprocess.run([vlib.harness_bin("coinswapbig"), "rows", "-seed", str(meta["seed"]), "-n", str(meta["n"]),
+                        "-len", str(meta["len"]), "-out", rows_file], capture_output=True, text=True, timeout=1200)
+    if p.returncode != 0:
+        raise Inconclusive("harness-coinswapbig failed: " + p.stderr[-1000:])
+    rows = json.load(open(rows_file))
+    ok, failing, wall = vlib.apalache_steps(sub, "CoinswapBig", "CoinswapClauses", CS_FIELDS, rows, CS_STEPOK)
+    if failing:
+        r = rows[failing[0]]
+        log(f"replay: {r['op']} history {r['hist']} step {r['step']} violates the C01 clauses")
+        print(f"VIOLATION property={pid} replay={path}", flush=True)
+        return 1
+    log("replay: all rows satisfy the C01 clauses")
+    return 0
+
+
+if "C01" in props.PROPS:
+    props.PROPS["C01"].post.append(coinswap_big)
+    props.PROPS["C01"].big_replay = coinswap_big_replay
+
 if "C10" in props.PROPS:
     props.PROPS["C10"].post.append(token_big)
     props.PROPS["C10"].big_replay = token_big_replay
